@@ -149,6 +149,12 @@ def _scan(repo, cfg, out):
                                 % (cfg, r.stdout[-4000:]))
         if not os.path.exists(tmp_out) or os.path.getsize(tmp_out) < 1000:
             raise AnalysisError("scan produced no fact file (cfg=%s)\n%s" % (cfg, r.stdout[-2000:]))
+        # source paths relative to the repository root: the cache is keyed by content, not by location
+        with open(tmp_out) as f:
+            data = f.read()
+        data = data.replace('"' + os.path.realpath(repo).rstrip("/") + "/", '"').replace('"' + repo.rstrip("/") + "/", '"')
+        with open(tmp_out, "w") as f:
+            f.write(data)
         os.replace(tmp_out, out)
         sys.stderr.write("[facts] scanned %s cfg=%s in %.1fs -> %s\n" % (repo, cfg, time.time() - t0, out))
     finally:
